@@ -287,5 +287,47 @@ def r08_6(ctx):
         raise AnalysisError(f"only {n_sites} baseline stores found in _load_config")
 
 
+def _only(ctx, before, pred):
+    keep = [i for i in ctx.instances[before:] if pred(i.construct)]
+    dropped = {i.construct for i in ctx.instances[before:]} - {i.construct for i in keep}
+    ctx.instances[before:] = keep
+    ctx.findings[:] = [f for f in ctx.findings if not (f.rule == ctx._rule and f.construct in dropped)]
+
+
+def r08_7(ctx):
+    """R08.7 default-marked entries are resolved dependencies-first: MenuNode.dependencies collects every component of the
+    node's properties (defaults, ranges low/high/cond, select/imply conditions, prompt, dep) - a bound or condition missing
+    from it is compared before the symbol it depends on has been restored, producing a spurious mismatch; and
+    Symbol.resolve_defaults resolves its dependencies (and the visibility through resolve_vis) before it compares."""
+    from .common import collected_components
+    collected_components(ctx, [f"{CORE}:MenuNode.dependencies"], ("res.add", "res.update", "expr_items"),
+                         "that symbol is not resolved before the options that depend on it")
+    repo = ctx.repo
+    f = repo.func(f"{CORE}:Symbol.resolve_defaults")
+    ctx.analysed(f.qual)
+    first = [n for n in f.node.body if isinstance(n, ast.If)][0]
+    construct = "Symbol.resolve_defaults/visibility judged after the dependencies were resolved"
+    t = ast.unparse(first.test)
+    ok = "self.resolve_vis() == 0" in t and "self.visibility == 0" not in t
+    (ctx.ok(construct, f.loc(first)) if ok else ctx.bad(construct, "the early exit tests the plain visibility: an option depending on a default-marked bool that is "
+                                                        "restored later is judged invisible and its stored default is silently dropped", f.loc(first)))
+    loops = [n for n in f.node.body if isinstance(n, ast.For) and ast.unparse(n.iter) == "self.dependencies"]
+    cmpi = [n for n in f.node.body if isinstance(n, ast.If) and "self.str_value != str(self._sdkconfig_value)" in ast.unparse(n.test)]
+    construct = "Symbol.resolve_defaults/dependencies resolved before the comparison"
+    ok = bool(loops) and bool(cmpi) and loops[0].lineno < cmpi[0].lineno and any(
+        isinstance(x, ast.Call) and ast.unparse(x.func).endswith(".resolve_defaults") for x in ast.walk(loops[0]))
+    (ctx.ok(construct, f.loc(loops[0]) if loops else f.loc()) if ok else ctx.bad(construct, "the comparison no longer follows the recursive resolution of self.dependencies", f.loc()))
+
+
+def r08_8(ctx):
+    """R08.8 the marker written to the file is decided from the freshly evaluated value (C03 R03.6): config_string
+    evaluates str_value before has_active_default_value() - otherwise a tool-written file carries a stale marker and
+    reloading it differs from loading it without its default-marked entries."""
+    from . import c03
+    before = len(ctx.instances)
+    c03.r03_6(ctx)
+    _only(ctx, before, lambda c: c.startswith("Symbol.config_string/"))
+
+
 def rules():
-    return [("R08.1", r08_1, 2), ("R08.2", r08_2, 2), ("R08.3", r08_3, 8), ("R08.5", r08_5, 3), ("R08.6", r08_6, 8)]
+    return [("R08.1", r08_1, 2), ("R08.2", r08_2, 2), ("R08.3", r08_3, 8), ("R08.5", r08_5, 3), ("R08.6", r08_6, 8), ("R08.7", r08_7, 6), ("R08.8", r08_8, 1)]
